@@ -154,6 +154,31 @@ impl FoldFSM {
         )
     }
 
+    /// The unclaimed fold lore split by cause: (entries, states) of lore whose stream value has a
+    /// position in the new trace but was not iterated in this run, and of lore whose stream value has
+    /// no position in the new trace at all.
+    #[cfg(aquavm_verif)]
+    pub(crate) fn verif_unclaimed_lore_by_cause(&self, data_keeper: &DataKeeper) -> [(usize, u64); 2] {
+        let mut unvisited = (0, 0);
+        let mut unmapped = (0, 0);
+        let folds = [
+            (&self.prev_fold, &data_keeper.new_to_prev_pos),
+            (&self.current_fold, &data_keeper.new_to_current_pos),
+        ];
+        for (fold, new_to_ctx_pos) in folds {
+            for (value_pos, lore) in fold.lore.iter() {
+                let states = lore.before_subtrace.subtrace_len as u64 + lore.after_subtrace.subtrace_len as u64;
+                let slot = match new_to_ctx_pos.get_by_right(value_pos) {
+                    Some(_) => &mut unvisited,
+                    None => &mut unmapped,
+                };
+                slot.0 += 1;
+                slot.1 += states;
+            }
+        }
+        [unvisited, unmapped]
+    }
+
     pub(crate) fn meet_fold_end(self, data_keeper: &mut DataKeeper) {
         // TODO: check for prev and current lore emptiness
         let fold_result = FoldResult { lore: self.result_lore };
